@@ -101,6 +101,9 @@ func runC09(p *an.Prog, r *an.Run, tier string) {
 		})
 	}
 
+	// every connected peer host is told to drop a cut-off client (the fan-out does not stop at the first one)
+	checkCutoff(p, r)
+
 	// ---- locked
 	entry := p.EntryLocks()
 	infos := map[*ssa.Function]*an.LockInfo{}
